@@ -296,6 +296,13 @@ func replayMulti(idx int, c *MCase, mode string, out *[]Mismatch) {
 		k, n := c.Sync, c.Steps[0].N
 		if c.SyncK == "U" {
 			ctls[k-1].OnSub = func(cs *ctlSub) { dest.Unsubscribe() }
+		} else if c.SyncK == "V" {
+			// while source k is being subscribed the first source emits its first value
+			ctls[k-1].OnSub = func(*ctlSub) {
+				if first := ctls[0].nth(0); first != nil {
+					emitMulti(first, 1, 0, n)
+				}
+			}
 		} else {
 			ctls[k-1].OnSub = func(cs *ctlSub) { emitMulti(cs, k, 0, n) }
 		}
@@ -345,6 +352,9 @@ func replayMulti(idx int, c *MCase, mode string, out *[]Mismatch) {
 		f()
 	}
 	sent := make([]int, c.M.K)
+	if c.SyncK == "V" {
+		sent[0] = 1 // the first value of source 1 was emitted during the subscription phase
+	}
 	for i, st := range c.Steps {
 		switch st.Do {
 		case "sub":
@@ -385,7 +395,7 @@ func replayMulti(idx int, c *MCase, mode string, out *[]Mismatch) {
 		}
 		for k := range ctls {
 			s, t := ctls[k].counts()
-			if c.Sync > 0 && k != c.Sync-1 && s == 0 && t == 0 && st.Exp.Torn[k] == 1 {
+			if c.Sync > 0 && (k != c.Sync-1 || c.SyncK == "V") && k != 0 && s == 0 && t == 0 && st.Exp.Torn[k] == 1 {
 				// a source the operator no longer needed after the synchronous end of another one was never subscribed at all: nothing to release
 				continue
 			}
